@@ -1,0 +1,20 @@
+//go:build verif
+// +build verif
+
+package hc
+
+import "time"
+
+// This file is only compiled with -tags verif.
+
+type verifChecker func(addr string, timeout time.Duration) error
+
+func (f verifChecker) Check(addr string, timeout time.Duration) error { return f(addr, timeout) }
+
+// VerifSetChecker replaces the monitor's checker by a scripted function.
+func (m *Monitor) VerifSetChecker(f func(addr string, timeout time.Duration) error) {
+	m.checker = verifChecker(f)
+}
+
+// VerifCheckHosts runs one health-check round synchronously.
+func (m *Monitor) VerifCheckHosts() { m.checkHosts() }
